@@ -1168,6 +1168,7 @@ impl<'a> Message<'a> {
             data: self.data,
             data_i: MessageHeader::LENGTH,
             seen_message_integrity: false,
+            last_was_sha1_integrity: false,
         }
     }
 
@@ -1345,35 +1346,47 @@ pub struct MessageAttributesIter<'a> {
     data: &'a [u8],
     data_i: usize,
     seen_message_integrity: bool,
+    // whether the previous attribute was the MESSAGE-INTEGRITY that ended the authenticated part
+    last_was_sha1_integrity: bool,
 }
 
 impl<'a> Iterator for MessageAttributesIter<'a> {
     type Item = RawAttribute<'a>;
 
     fn next(&mut self) -> Option<Self::Item> {
-        if self.data_i >= self.data.len() {
-            return None;
-        }
-
-        let Ok(attr) = RawAttribute::from_bytes(&self.data[self.data_i..]) else {
-            self.data_i = self.data.len();
-            return None;
-        };
-        let padded_len = attr.padded_len();
-        self.data_i += padded_len;
-        if self.seen_message_integrity {
-            if attr.get_type() == Fingerprint::TYPE {
-                return Some(attr);
+        loop {
+            if self.data_i >= self.data.len() {
+                return None;
             }
-            return None;
-        }
-        if attr.get_type() == MessageIntegrity::TYPE
-            || attr.get_type() == MessageIntegritySha256::TYPE
-        {
-            self.seen_message_integrity = true;
-        }
 
-        Some(attr)
+            let Ok(attr) = RawAttribute::from_bytes(&self.data[self.data_i..]) else {
+                self.data_i = self.data.len();
+                return None;
+            };
+            let padded_len = attr.padded_len();
+            self.data_i += padded_len;
+            if self.seen_message_integrity {
+                // after an integrity attribute only a MESSAGE-INTEGRITY-SHA256 directly following
+                // MESSAGE-INTEGRITY and the FINGERPRINT are part of the message, anything else is
+                // not covered by the integrity and is skipped.
+                let follows_sha1 = self.last_was_sha1_integrity;
+                self.last_was_sha1_integrity = false;
+                if attr.get_type() == Fingerprint::TYPE
+                    || (follows_sha1 && attr.get_type() == MessageIntegritySha256::TYPE)
+                {
+                    return Some(attr);
+                }
+                continue;
+            }
+            if attr.get_type() == MessageIntegrity::TYPE
+                || attr.get_type() == MessageIntegritySha256::TYPE
+            {
+                self.seen_message_integrity = true;
+                self.last_was_sha1_integrity = attr.get_type() == MessageIntegrity::TYPE;
+            }
+
+            return Some(attr);
+        }
     }
 }
 
